@@ -127,6 +127,7 @@ let run (imp : string) (inp : string) (obs : string) : string * string =
        | Some a, Some rs ->
          (match imp with
           | "swisscard2" -> statement_verdict imp base (K.sc2_statement_output a rs)
+          | "postfinance" -> statement_verdict imp base (K.pf_statement_output a rs)   (* postfinance_debug = false *)
           | _ -> "ok")                                     (* no executable statement-level specification yet *)
        | _ -> undecoded) in
   let spec =
